@@ -87,7 +87,7 @@ def _job(job) -> List[Dict[str, Any]]:
     for d in I.obligations.values():
         f = d["func"]
         mm, _, qn = f.partition("::")
-        inst("R9.2", "HOLDS" if d["ok"] else "VIOLATED", f"{d['kind']}: {norm_text(d['node'], 80)} ({case})", "" if d["ok"] else "; ".join(d["msgs"]), {}, mm, qn, getattr(d["node"], "lineno", 0))
+        inst("R9.2", "HOLDS" if d["ok"] else ("UNDECIDED" if d.get("weak") else "VIOLATED"), f"{d['kind']}: {norm_text(d['node'], 80)} ({case})", "" if d["ok"] else "; ".join(d["msgs"]), {}, mm, qn, getattr(d["node"], "lineno", 0))
     if n == (2, 2):
         # ---- R9.3 two-team complement and R9.1 on the single pair
         if seq.fixed is None or len(seq.fixed) != 2 or not all(isinstance(x, Num) for x in seq.fixed):
